@@ -16,10 +16,6 @@ from . import common as C
 from . import c04, c16
 
 OPTS = {"loop_bound": 3}
-STRUCTURAL = {"PrefixMap::insert", "VacantEntry::_insert", "PrefixMap::new_node", "PrefixMap::_remove_node",
-              "PrefixMap::_do_remove_children", "PrefixMap::clear", "<map::IntoIter as Iterator>::next",
-              "PrefixMap::remove", "PrefixMap::remove_children", "PrefixMap::_retain", "PrefixMap::retain",
-              "Table::set_child", "Table::clear_child", "<Table as Default>::default"}
 CANONICAL_OPS = ("PrefixMap::insert", "PrefixMap::remove")
 VALUE_ONLY = ["PrefixMap::remove_keep_tree", "PrefixMap::get_mut", "PrefixMap::get_lpm_mut", "<IterMut as Iterator>::next",
               "<ValuesMut as Iterator>::next", "Entry::get_mut", "Entry::and_modify", "Entry::or_insert", "Entry::or_insert_with",
